@@ -716,6 +716,49 @@ fn migrate_case(ctx: &Ctx, rep: &mut Report, case_seed: u64, variant: u64, grid_
 			}
 		}
 	}
+	// ---- source and destination are independent databases: writes to the unselected (copied)
+	// columns of the destination must not show up in the source (checked right below)
+	if !p.overwrite && violations.iter().all(|v| !v.0.contains("result_open_failed") && !v.0.contains("panic")) {
+		let r = catch(|| -> Result<u64, String> {
+			let db = Db::open(&ro).map_err(|e| format!("{}", e))?;
+			let mut n = 0;
+			for c in 0..p.src.len() {
+				if selected.contains(&c) {
+					continue
+				}
+				let mut tx = vec![];
+				match &src.content.data[c] {
+					ColData::Kv(m) => {
+						let mut it = m.keys();
+						if let Some(k) = it.next() {
+							tx.push((c as u8, parity_db::Operation::Set(k.clone(), b"changed in the destination only".to_vec())));
+						}
+						if let Some(k) = it.next() {
+							tx.push((c as u8, parity_db::Operation::Dereference(k.clone())));
+						}
+					},
+					ColData::Rc(m) => {
+						if let Some((k, v)) = m.iter().next() {
+							// one more reference in the destination (same value: the column's contract)
+							tx.push((c as u8, parity_db::Operation::Set(k.clone(), v.0.clone())));
+						}
+					},
+					_ => {},
+				}
+				if !tx.is_empty() {
+					db.commit_changes(tx).map_err(|e| format!("{}", e))?;
+					n += 1;
+				}
+			}
+			drop(db);
+			Ok(n)
+		});
+		match r {
+			Ok(Ok(n)) => rep.count("destination_write_probes", n),
+			Ok(Err(e)) => violations.push((format!("{};failure=destination_write_failed", sigbase), format!("a commit on the migrated database failed: {}", e))),
+			Err(pm) => violations.push((format!("{};failure=panic;site={};phase=destination_write_probe", sigbase, panic_site(&pm)), pm)),
+		}
+	}
 	// ---- without overwrite the source still holds everything
 	if !p.overwrite {
 		let so = src_options(&from, &p, &src.thresholds);
